@@ -170,9 +170,13 @@ fn c28_zip_truncates_to_shortest() {
 //@end
 
 // (element type instantiated at u8: a Vec<css::Value> plus its drop glue
-// makes CBMC run out of memory; the loop does not depend on the type)
+// makes CBMC run out of memory; the loop does not depend on the type.  The
+// result wrapping `Value::scalar(i + 1)` / `Value::Null` is replaced by
+// `Some(i + 1)` / `None`: even one css::Value result costs > 13 GB here)
 //@range file=rsass/src/sass/functions/list.rs fn=create_module from="for (i, v) in v.iter().enumerate() {" until="\n        }\n"
-//@  header: fn snippet_list_index(v: Vec<u8>, value: u8) -> Result<Value, CallError>
+//@  header: fn snippet_list_index(v: Vec<u8>, value: u8) -> Result<Option<usize>, ()>
+//@  subst: Ok(Value::scalar(i + 1)) => Ok(Some(i + 1))
+//@  subst: Ok(Value::Null) => Ok(None)
 //@end
 
 /// C28: list.separator — comma / slash / space; maps and argument lists act
@@ -189,32 +193,22 @@ fn c28_separator_name() {
     assert!(snippet_separator(Value::True) == "space", "a single value is a space list");
     assert!(snippet_separator(Value::Null) == "space");
 }
-fn pos_of(r: Result<Value, CallError>) -> Option<f64> {
-    match r {
-        Ok(Value::Null) => None,
-        Ok(Value::Numeric(n, _)) => Some(f64::from(n.value.clone())),
-        _ => {
-            assert!(false, "list.index returns a number or null");
-            None
-        }
-    }
-}
 /// C28: list.index gives the first 1-based position of an `==` element, or
 /// null.  Lists of N elements (concrete N: a symbolic length makes the
 /// allocation size symbolic), all element values.
 fn index_law<const N: usize>() {
     let e: [u8; N] = kani::any();
     let x: u8 = kani::any();
-    let got = pos_of(snippet_list_index(e.to_vec(), x));
+    let got = snippet_list_index(e.to_vec(), x);
     let mut want = None;
     let mut k = N;
     while k > 0 {
         k -= 1;
         if e[k] == x {
-            want = Some((k + 1) as f64);
+            want = Some(k + 1);
         }
     }
-    assert!(got == want, "index: first 1-based position of an == element, null when absent");
+    assert!(got == Ok(want), "index: first 1-based position of an == element, null when absent");
 }
 #[kani::proof]
 #[kani::unwind(6)]
